@@ -1,8 +1,12 @@
 --------------------------- MODULE Gen_ValueObject ---------------------------
 (* Emits the comparison universe of C07 part 2: pairs of record descriptions.  A
    description is [cls, ty, f, mode]: the record is built from the wire form of its
-   fields (mode "wire"), from the text of that record ("text"), or from that text with
-   its names made relative to the origin example. ("rel").  Only inputs are emitted. *)
+   fields (mode "wire"), from the text of that record ("text"), from that text with
+   its names made relative to the origin example. ("rel"), or as the RFC 3597 generic
+   form of that record ("generic": same class, type and RDATA octets, held by the
+   implementation that knows nothing about the type).  A generic record cannot lower-case
+   names it does not know about, so the generic form is only requested for records whose
+   canonical encoding is their plain wire form.  Only inputs are emitted. *)
 EXTENDS ValueObject, ValueObjectU, Json
 
 CONSTANTS NamesFull,    \* names used for all pairs of one type, one construction mode
@@ -12,12 +16,20 @@ gvars == <<vars, pair>>
 
 M(r, m) == [cls |-> r.cls, ty |-> r.ty, f |-> r.f, mode |-> m]
 ModePairs == {<<"wire", "text">>, <<"rel", "rel">>, <<"wire", "rel">>, <<"rel", "wire">>, <<"text", "rel">>}
+GenericModePairs == {<<"wire", "generic">>, <<"generic", "wire">>, <<"generic", "generic">>, <<"text", "generic">>,
+                     <<"generic", "rel">>}
+GenericOk(x) == x.mode # "generic" \/ Canon(x) = Wire(x)
+GenericPairsOf(ty) ==
+    {p \in {[a |-> M(r, mm[1]), b |-> M(s, mm[2])] :
+                r \in Records("IN", ty, NamesModes, NamesModes), s \in Records("IN", ty, NamesModes, NamesModes),
+                mm \in GenericModePairs} : GenericOk(p.a) /\ GenericOk(p.b)}
 Pairs ==
     UNION {{[a |-> M(r, "wire"), b |-> M(s, "wire")] :
               r \in Records("IN", ty, NamesFull, NamesModes), s \in Records("IN", ty, NamesFull, NamesModes)} : ty \in Types}
     \cup UNION {{[a |-> M(r, mm[1]), b |-> M(s, mm[2])] :
               r \in Records("IN", ty, NamesModes, NamesModes), s \in Records("IN", ty, NamesModes, NamesModes),
               mm \in ModePairs} : ty \in Types}
+    \cup UNION {GenericPairsOf(ty) : ty \in Types}   \* the same value held as typed and as generic record
     \cup {[a |-> M(r, "wire"), b |-> M(s, "wire")] :      \* same fields, other type / other class
               r \in Records("IN", "NS", NamesModes, NamesModes) \cup Records("IN", "MX", NamesModes, NamesModes),
               s \in Records("IN", "CNAME", NamesModes, NamesModes) \cup Records("CH", "MX", NamesModes, NamesModes)
